@@ -28,3 +28,18 @@ def state_loc(state):
 
 def leaf_str(state, leaf):
     return describe_leaf(state, leaf)
+
+
+def check_witness(r, name, what):
+    """E-TYPE: the compile_fail witness must fail to compile (with the stated error code) and its twin must compile."""
+    from ..facts import witness_results, EngineError
+    res = witness_results()
+    cf = res.get(name + ":compile_fail")
+    tw = res.get(name + ":twin")
+    r.inst("witness:" + name, sample={"witness": name, "compile_fail": cf, "twin": tw})
+    if cf is None or tw is None:
+        raise EngineError(f"witness {name} missing from the doctest results")
+    if tw != "ok":
+        raise EngineError(f"the compiling twin of witness {name} does not compile: the witness would fail for the wrong reason")
+    if cf != "ok":
+        r.violate("witness:" + name, f"type-level witness no longer holds: {what}", "/verif/witness/src/lib.rs")
